@@ -750,6 +750,10 @@ fn setup_disk(case: &Case) -> Result<(), String> {
 /// The body of task 0. Leaves the `RunState` in TLS for the caller.
 pub fn run_case(case: Arc<Case>, root: PathBuf) {
     let mut disk = Disk::new(root, case.backend, case.universe.clone());
+    disk.mtime_salt = (case.universe.len() as u64) * 31
+        + (case.initial.len() as u64) * 7
+        + case.threads.iter().map(|t| t.len() as u64).sum::<u64>() * 131
+        + case.decoys as u64;
     disk.alias = case.alias.map(|a| a.0);
     *RUN.lock().unwrap_or_else(|e| e.into_inner()) = Some(RunState {
         case: case.clone(),
